@@ -1,2 +1,2 @@
-import NipyVerif.Model.C05D
-def main : IO Unit := NipyVerif.driverLoop NipyVerif.C05.runAll
+import NipyVerif.Model.C05E
+def main : IO Unit := NipyVerif.driverLoop NipyVerif.C05.runW3
